@@ -358,6 +358,18 @@ func exRel(a kv) string {
 			mk("elsewhere/bin/probe.sh", "good2", 0, 0o755)
 		}
 	}
+	if a.str("variant", "") == "cwdfile" {
+		// the configured path names a file directly in the working directory (`./top.sh`, `bin/../top.sh`, a relative link to
+		// it); a file of the same name, owned by somebody else, sits in a directory of $PATH: a relative path WITH a slash
+		// is never looked up there - neither by the check nor by the start
+		mk("top.sh", "good", 0, 0o755)
+		_ = os.Symlink("top.sh", filepath.Join(dir, "lnk.sh"))
+		mk("pathdir/top.sh", "bad", 1000, 0o777)
+		mk("pathdir/lnk.sh", "bad", 1000, 0o777)
+		oldPath := os.Getenv("PATH")
+		_ = os.Setenv("PATH", filepath.Join(dir, "pathdir")+":"+oldPath)
+		defer func() { _ = os.Setenv("PATH", oldPath) }()
+	}
 	if err := os.Chdir(dir); err != nil {
 		panic(err)
 	}
@@ -544,6 +556,25 @@ func exBehaviourScript(dir, beh string, holdMs int) string {
 	case "vanish":
 		// ENOENT from execve although the file itself exists: the interpreter does not.
 		body = []byte("#!/nonexistent-verif/interp\necho 42\n")
+	case "shebangself":
+		// a script whose interpreter is the script itself: the kernel refuses it at once (ELOOP)
+		body = []byte("#!" + script + "\necho 42\n")
+	case "shebangpair":
+		// two wrappers naming each other as their interpreter
+		other := filepath.Join(dir, "cmd2")
+		if err := os.WriteFile(other, []byte("#!"+script+"\necho 42\n"), 0o700); err != nil {
+			panic(err)
+		}
+		exSetStat(other, 0, 0, 0o755)
+		body = []byte("#!" + other + "\necho 42\n")
+	case "fifo":
+		// the configured executable is a named pipe (root-owned, 0755): it passes the ownership test and cannot be started;
+		// opening it for reading would block for ever
+		if err := syscall.Mkfifo(script, 0o755); err != nil {
+			panic(err)
+		}
+		exSetStat(script, 0, 0, 0o755)
+		return script
 	case "sleep":
 		body = sh("sleep 30")
 	case "execsleep":
